@@ -185,3 +185,75 @@ pub mod mv {
         }
     }
 }
+
+// ---------------------------------------------------------------- (L) lock context, (D) def-use across closures
+pub mod l {
+    use super::*;
+
+    pub struct Versions(pub VecDeque<u64>);
+
+    pub struct Tree {
+        pub history: RwLock<Versions>,
+        pub state: Mutex<Vec<u64>>,
+    }
+
+    impl Tree {
+        pub fn good_insert(&self, v: u64) -> usize {
+            self.history.read().expect("poisoned").0.iter().filter(|x| **x == v).count()
+        }
+
+        pub fn bad_insert(&self, v: u64) -> usize {
+            let n = self.history.read().expect("poisoned").0.len();
+            // guard released: the work below runs unprotected
+            work(n, v)
+        }
+
+        pub fn good_insert_stmt(&self, v: u64) -> usize {
+            let guard = self.history.read().expect("poisoned");
+            let n = guard.0.len();
+            work(n, v)
+        }
+
+        pub fn good_order(&self) {
+            let mut s = self.state.lock().expect("poisoned");
+            let mut h = self.history.write().expect("poisoned");
+            s.push(1);
+            h.0.push_back(1);
+        }
+
+        pub fn bad_order(&self) {
+            let mut h = self.history.write().expect("poisoned");
+            let mut s = self.state.lock().expect("poisoned");
+            s.push(1);
+            h.0.push_back(1);
+        }
+    }
+
+    pub fn work(n: usize, v: u64) -> usize {
+        n + v as usize
+    }
+}
+
+pub mod d {
+    pub fn upgrade<F: FnOnce(&Vec<u64>) -> Vec<u64>>(cur: &mut Vec<u64>, f: F) {
+        let next = f(cur);
+        *cur = next;
+    }
+
+    pub fn good_commit_on_current(cur: &mut Vec<u64>, add: u64) {
+        upgrade(cur, |current| {
+            let mut copy = current.clone();
+            copy.push(add);
+            copy
+        });
+    }
+
+    pub fn bad_commit_on_stale(cur: &mut Vec<u64>, add: u64) {
+        let snapshot = cur.clone();
+        upgrade(cur, |_current| {
+            let mut copy = snapshot.clone();
+            copy.push(add);
+            copy
+        });
+    }
+}
